@@ -5377,6 +5377,12 @@ impl GraphEngine {
                 });
             } else if let Some(parent_list) = parents.get(&current) {
                 for (parent, edge_id) in parent_list {
+                    // A zero-weight cycle (or self-loop) makes a node its own equal-cost
+                    // ancestor; following it would never reach `from`. Only simple paths
+                    // are enumerated.
+                    if nodes.contains(parent) {
+                        continue;
+                    }
                     let mut new_nodes = nodes.clone();
                     new_nodes.push(*parent);
                     let mut new_edges = edges.clone();
